@@ -512,7 +512,7 @@ func c10Inputs(r *wk.Rand, shape *gen.Shape) []any {
 var traceC10 = os.Getenv("VERIF_TRACE") != ""
 
 func runC10(c *wk.Ctx) {
-	c.Meta("rule", "valid descriptions (SelfSerialize of generated scopes and of generated plugin schemas with several steps, outputs, signal handlers and emitters; hand-written tricky reference shapes) are treated as mutable trees. EVERY node of a description receives every applicable single structural mutation: delete, retype (nil / string / int / map / list), rename the key, duplicate over a sibling, re-point (object ids, root, reference ids and namespaces, discriminator field names to another / a missing / an empty name), each of the 15 type ids, unparsable / wrongly typed / empty defaults, invalid patterns, flipped inlining and boolean flags, negative and 2^63 bounds, zero and negative unit multipliers; pairs of mutations are sampled; grammar-free random trees are added. Each mutant goes through UnserializeScope (+ApplySelf) or UnserializeSchema, also after a CBOR encode/decode, and through Client.ReadSchema from a fake server's hello. Whatever is accepted is exercised: Unserialize / data-mode ValidateCompatibility / Validate / Serialize with valid, perturbed and hostile inputs on the scope or on every step input, output and signal data schema, plus ReflectedType, ValidateReferences, Properties, GetDefaults, SelfSerialize. Every call is journalled and guarded. distinct = hash(description, mutation); non-trivial = the mutant differs from the original")
+	c.Meta("rule", "valid descriptions (SelfSerialize of generated scopes and of generated plugin schemas with several steps, outputs, signal handlers and emitters; hand-written tricky reference shapes) are treated as mutable trees. EVERY node of a description receives every applicable single structural mutation: delete, retype (nil / string / int / map / list), rename the key, duplicate over a sibling, re-point (object ids, root, reference ids and namespaces, discriminator field names to another / a missing / an empty name), each of the 15 type ids, unparsable / wrongly typed / empty defaults, invalid patterns, flipped inlining and boolean flags, negative and 2^63 bounds, zero and negative unit multipliers; pairs of mutations are sampled; grammar-free random trees are added. Each mutant goes through UnserializeScope (+ApplySelf) or UnserializeSchema, also after a CBOR encode/decode, and through Client.ReadSchema from a fake server's hello. Whatever is accepted is exercised: Unserialize / data-mode ValidateCompatibility / Validate / Serialize with valid, perturbed and hostile inputs on the scope or on every step input, output and signal data schema, plus ReflectedType, ValidateReferences, Properties, GetDefaults, SelfSerialize. Every call is journalled and guarded. distinct = hash(description, mutation); non-trivial = the mutant differs from the original Directed: descriptions of chains of 4..49 single-property objects (constructor-built and rebuilt), lone values of every kind.")
 	c.Meta("assumptions", []string{"a scope returned by UnserializeScope is linked with ApplySelf before use (part of loading it); an unlinked reference to an EXTERNAL namespace is the caller's to link and is not exercised"})
 	c.Floor("mutants", 5000)
 	c.Floor("mutants_accepted", 300)
